@@ -31,6 +31,7 @@ EVENT_ACTIONS = [
     ("node-application-install", "client_2"), ("node-file-delete", "backup_server"), ("node-file-create", "newdir"),
     ("node-folder-create", "docs"), ("host-nic-disable", "database_server"), ("network-port-disable", None),
     ("node-application-close", "client_1"), ("node-service-restart", "database_server"),
+    ("node-file-create", "a.txt"), ("node-application-remove", "web_server"), ("node-folder-restore", "docs"),
 ]
 
 
@@ -208,6 +209,9 @@ class ReqAdapter(engine.Adapter):
                 if len(executed) % 400 == 0:
                     base = self._compare(s, base, executed[-400:], add)
         base = self._compare(s, base, executed[-(len(executed) % 400):] if len(executed) % 400 else [], add)
+        # A2: every route of the live tree leads to the live component it names (and only existing components have routes)
+        for v in _route_identity(sim):
+            add(v)
         # B: every action type aimed at existing components
         if not self.light or ev[0] in ("init",):
             idx = [i for i, e in enumerate(self.actions) if names_existing(sim, e)]
@@ -345,6 +349,56 @@ def _compare_impl(ad, s, base, batch, add):
                       "a batch of %d refused/unreachable requests starting with %r changed the state: %s" % (
                           len(batch), batch[0][0], _diff(base, after))))
     return after
+
+
+def _route_identity(sim):
+    """Requests are routed by name. For every name-keyed route of every node: the component of that name must exist and the
+    route must lead to THAT component's request manager (not to a removed or deleted object that once had the name)."""
+    from .c11 import _next_manager
+
+    out = []
+    for node in sim.network.nodes.values():
+        hn = node.config.hostname
+        ntype = type(node).__name__
+        nrm = node._request_manager
+        route = sim.network._node_request_manager.request_types.get(hn)
+        if route is None or _next_manager(route.func) is not nrm:
+            out.append(violation("route_leads_to_named_component", "node-route", "node %s: network route does not lead to the node" % hn))
+        for kind, reg, rmname in (("service", node.services, "_service_request_manager"), ("application", node.applications, "_application_request_manager")):
+            rm = getattr(node, rmname)
+            live = {sw.name: sw for sw in reg.values() if node.software_manager.software.get(sw.name) is sw}
+            for name, rt in rm.request_types.items():
+                sw = live.get(name)
+                if sw is None:
+                    out.append(violation("route_leads_to_named_component", "%s-route:no-such-component" % kind,
+                                         "%s %s: request route '%s/%s' exists but no such %s is installed" % (ntype, hn, kind, name, kind)))
+                elif _next_manager(rt.func) is not sw._request_manager:
+                    out.append(violation("route_leads_to_named_component", "%s-route:other-object" % kind,
+                                         "%s %s: request route '%s/%s' does not lead to the installed %s" % (ntype, hn, kind, name, kind)))
+            for name in live:
+                if name not in rm.request_types:
+                    out.append(violation("route_leads_to_named_component", "%s-route:missing" % kind,
+                                         "%s %s: installed %s '%s' has no request route" % (ntype, hn, kind, name)))
+        fs = node.file_system
+        for fo in fs.folders.values():
+            rt = fs._folder_request_manager.request_types.get(fo.name)
+            if rt is None or _next_manager(rt.func) is not fo._request_manager:
+                out.append(violation("route_leads_to_named_component", "folder-route:%s" % ("missing" if rt is None else "other-object"),
+                                     "%s %s: route of live folder '%s' %s" % (ntype, hn, fo.name, "is missing" if rt is None else "leads to another (deleted) folder object")))
+            for f in fo.files.values():
+                rt = fo._file_request_manager.request_types.get(f.name)
+                if rt is None or _next_manager(rt.func) is not f._request_manager:
+                    out.append(violation("route_leads_to_named_component", "file-route:%s" % ("missing" if rt is None else "other-object"),
+                                         "%s %s: route of live file '%s/%s' %s" % (ntype, hn, fo.name, f.name,
+                                                                                  "is missing" if rt is None else "leads to another (deleted) file object")))
+        for num, nic in node.network_interface.items():
+            rt = node._nic_request_manager.request_types.get(num)
+            if rt is None or _next_manager(rt.func) is not nic._request_manager:
+                out.append(violation("route_leads_to_named_component", "nic-route", "%s %s: interface %s route is wrong" % (ntype, hn, num)))
+    seen = {}
+    for v in out:
+        seen.setdefault(v["signature"], v)
+    return list(seen.values())
 
 
 def _kind(req):
